@@ -8,6 +8,10 @@ path that would leave them):
   run 2  harness (plain) vs the Lean model's executable definitions (drv_c14), line by line;
   judge  plain Python: what the property says directly (the tree before the operation is the one observed after the
          previous line; the expected tree is computed here, independently of the Lean model) + agreement with std::fs.
+`readdirs` lines: in run 1 a plain readdir (the kernel answers; its records, in its order, are recorded); in run 2 every
+getdents64 call of tiny-std's ReadDir is answered by the harness (sc-shim) from those records, re-split by a script chosen
+here (gen_split) — the iteration is judged against the script (split_spec) and compared with the model's ReadDir over the
+same answers.
 A separate malformed stream (symlinked prefixes, `..`, final symlinks, …) goes through run 1 only: never a panic, and a
 success must be a success of std::fs with an identical resulting tree."""
 import os
@@ -164,7 +168,7 @@ def gen_split(r, recs):
             n = max(1, k - 1)
         items.append(n)
         i += n
-    term = r.choice(["z", "z", "z", "none", "errno", "early", "junk"])
+    term = r.choice(["z", "z", "z", "none", "errno", "early", "junk", "overfull"])
     toks = [str(n) for n in items]
     if term == "z":
         toks.append("z")
@@ -176,6 +180,9 @@ def gen_split(r, recs):
         toks = toks[:at] + ["z"] + toks[at:]
     elif term == "junk":
         toks += ["z", "1", "e5"]
+    elif term == "overfull":                 # an answer of 40 records: does not fit 512 bytes unless fewer than 22 are left
+        at = r.range(0, len(toks))
+        toks = toks[:at] + ["40"] + toks[at:]
     return "g" + ",".join(toks), mode, term
 
 
@@ -798,7 +805,7 @@ def run(ctx):
                 "%s entries) + op sequences write/read/copy/create_dir_all/remove_dir_all/readdir on a real sandbox, path shapes "
                 "relative/absolute, repeated and trailing slashes, existing prefixes, lengths 510..514 and 4093..4097, short-count scripts "
                 "for write/copy_file_range, scripted getdents64 answers (readdirs: the kernel's records of a directory re-split over the "
-                "calls in 5 modes x 5 terminators incl. errno and early 0); "
+                "calls in 5 modes x 6 terminators incl. errno, early 0 and an answer that does not fit); "
                 "distinct_nontrivial = distinct (op, outcome class, absolute, repeated, trailing, length bucket, prior destination state) classes"
                 % ("3000" if thorough else "300"))
     ctx.assumptions += [
